@@ -324,12 +324,8 @@ def text_listing(files, workdir, tag='listing'):
     ondisk = {}
     for rel, data in files:
         ondisk[os.path.join(proj, rel).encode('utf-8')] = data
-    for qid, _ in tq:
-        oc, payload = rest.get(qid, ('missing', ''))
-        if oc != 'ok':
-            dis.append('text-mode query %s did not answer: %s %s' % (qid, oc, payload[:100]))
-            continue
-        raw = payload.encode('utf-8')
+    def check_report(raw, qtext, where):
+        """-> (violation or None, disagreement or None)"""
         pos = 0
         for m in _blk.finditer(raw):
             if m.start() != pos:
@@ -339,8 +335,7 @@ def text_listing(files, workdir, tag='listing'):
             fpath, line0 = m.group(1), int(m.group(2))
             data = ondisk.get(fpath)
             if data is None:
-                viol.append(dict(what='the text report names a file that was not scanned', file=fpath.decode('utf-8', 'replace'), data=b'', detail=''))
-                continue
+                return dict(what='the text report names a file that was not scanned', file=fpath.decode('utf-8', 'replace'), data=b'', detail=where), None
             flines = data.split(b'\n')
             shown = [l for l in m.group(3).split(b'\n') if l]
             for i, l in enumerate(shown):
@@ -352,9 +347,36 @@ def text_listing(files, workdir, tag='listing'):
                 fl = flines[n - 1] if 0 < n <= len(flines) else None
                 okt = fl is not None and ((txt == fl) if inner else (txt in fl))
                 if not (okn and okt):
-                    viol.append(dict(what='text mode: the text printed next to a line number is not that line of the file', file=fpath.decode('utf-8', 'replace'), data=data,
-                                     detail='query %s; entity at line %d; shown line %d is numbered %d with text %r; line %d of the file is %r' % (dict(tq)[qid], line0, i, n, txt[:80], n, (fl or b'')[:80])))
-                    break
+                    return dict(what='text mode: the text printed next to a line number is not that line of the file', file=fpath.decode('utf-8', 'replace'), data=data,
+                                detail='%s; query %s; entity at line %d; shown line %d is numbered %d with text %r; line %d of the file is %r' % (where, qtext, line0, i, n, txt[:80], n, (fl or b'')[:80])), None
         if pos != len(raw):
-            dis.append('text report of %s is not a sequence of location blocks from byte %d: %r' % (qid, pos, raw[pos:pos + 120]))
+            return None, 'text report (%s) of %r is not a sequence of location blocks from byte %d: %r' % (where, qtext, pos, raw[pos:pos + 120])
+        return None, None
+
+    for qid, _ in tq:
+        oc, payload = rest.get(qid, ('missing', ''))
+        if oc != 'ok':
+            dis.append('text-mode query %s did not answer: %s %s' % (qid, oc, payload[:100]))
+            continue
+        v, d = check_report(payload.encode('utf-8'), dict(tq)[qid], 'processQuery')
+        if v:
+            viol.append(v)
+        if d:
+            dis.append(d)
+    # the report FILE of the real command, written several times to the same path (longest report first): what the
+    # file shows after each run must be that run's report and nothing else
+    outf = work + '/report.txt'
+    order = sorted(tq, key=lambda x: -len(rest.get(x[0], ('', ''))[1]))
+    for k, (qid, q) in enumerate(order + order[:1]):
+        rc, o, e = run([B + '/pathfinder', 'query', '--disable-metrics', '--project', proj, '--query', q, '--output-file', outf], timeout=300, env=dict(ENV, HOME=work))
+        stats['listing_report_files'] += 1
+        if rc != 0 or not os.path.exists(outf):
+            dis.append('pathfinder query --output-file failed (rc=%d): %s' % (rc, e.decode(errors='replace')[-200:]))
+            break
+        raw = re.sub(rb'\x1b\[[0-9;]*m', b'', open(outf, 'rb').read())
+        v, d = check_report(raw, q, 'report file written by run %d to the same path' % (k + 1))
+        if v or d:
+            # a tail left over from the longer report of an earlier run shows lines that are not this run's
+            viol.append(v or dict(what='text mode: the report file holds more than the report of this run (text left from an earlier run)', file=outf, data=b'', detail=d))
+            break
     return stats, viol, dis
